@@ -208,6 +208,7 @@ class Multiprocessor(Filter[Iterable[Any], Iterable[Any]]):
             self._poison       = None
             self._main_err     = False
             self._load_stopper = Stopper() #this works because the loader is a thread which means we have shared memory
+            n_procs_lock       = mt.Lock()
 
             load_line   = SourceSink(IterableSource(items), self._load_stopper, pickler, in_put)
             filter_line = SourceSink(in_get, setter, unpickler, get_max, Safe(Foreach(self._filter)), out_put)
@@ -235,8 +236,13 @@ class Multiprocessor(Filter[Iterable[Any], Iterable[Any]]):
                 if not worker.poisoned and not self._exceptions and worker.exitcode == 0:
                     MyProcessLine(worker.pipeline,filter_finished_or_failed,read_waiters).start()
                 else:
-                    self._n_procs -= 1
-                    if self._n_procs == 0:
+                    #callbacks run on their own threads so we only count down under a lock. Otherwise two
+                    #workers finishing together can lose a decrement and the out_queue would never be poisoned.
+                    with n_procs_lock:
+                        self._n_procs -= 1
+                        is_last = self._n_procs == 0
+
+                    if is_last:
                         try:
                             out_put.write([self._poison])
                         except ValueError: #pragma: no cover
